@@ -11,7 +11,8 @@ EXTENDS VerifTrace, FiniteSets
 
 \* Only the constant-level part of KeepAlive is used; its variables are bound to dummies.
 KA == INSTANCE KeepAlive WITH
-        Interval <- 4, MaxLen <- 0, Thresholds <- {1}, AnswerDelays <- {0}, DrainLens <- {1},
+        Interval <- 8, MaxLen <- 0, Thresholds <- {1}, AnswerDelays <- {0}, DrainLens <- {1},
+        HsSlots <- {0}, CtxSlots <- {-1}, EnvMaxLen <- 0, EnvProduct <- FALSE, hs <- 0, cc <- -1,
         drain <- 0, drainedAt <- -1,
         script <- <<>>, thr0 <- 1, endMode <- "idle", now <- 0, pc <- "done", tickerOn <- FALSE,
         nextTick <- 0, ctxDone <- TRUE, cf <- 0, k <- 0, pend <- [o |-> "a", d |-> 0],
@@ -26,6 +27,7 @@ Obs(e) == [T |-> e.T, I |-> e.I, start |-> e.start, pings |-> e.pings,
 
 \* code-shaped expectation (strict): exported by TLC in units of I / e.exp.unit
 U(e) == e.I \div e.exp.unit
+SessEnd(e) == IF e.closed >= 0 THEN e.closed ELSE e.userClose
 Strict(e) ==
   /\ Len(e.pings) = e.exp.nping
   /\ \A i \in 1..Len(e.pings) :
@@ -37,6 +39,11 @@ Strict(e) ==
   /\ Len(e.attempts) = Len(e.pings)      \* every attempt reaches the peer
   /\ \A i \in 1..Len(e.attempts) : i <= Len(e.pings) => e.attempts[i] = e.pings[i].at
   /\ e.ended >= 0
+  \* the environment was as the case says: handshake completed (unless the session was over
+  \* by then) and Connect context cancelled at the slot's instant
+  /\ \/ e.hsAt = (IF e.exp.hsAt <= 0 THEN e.exp.hsAt ELSE e.exp.hsAt * U(e))
+     \/ e.hsAt = -1 /\ SessEnd(e) >= 0 /\ SessEnd(e) < e.exp.hsAt * U(e)
+  /\ e.ccAt = (IF e.exp.ccAt < 0 THEN -1 ELSE e.exp.ccAt * U(e))
 
 MNext == /\ l <= NLines /\ l' = l + 1
          /\ LET e == TraceLog[l]  o == Obs(e) IN
